@@ -175,6 +175,9 @@ fixed("F64", "C16", "cfb0ebe", "C16.invented-names|binder|record_update_temp", "
 add("F71", ["C16"], "C16.annotation-ambiguity|pipe|ParenBegin", "`let f = |x:float| (x + 1.0)` does not parse (`Expected ParenEnd, found OpSum`) while `|x| (x + 1.0)` and `|x:float| x + 1.0` do: after the annotation the parser reads `| (` as the continuation of a union type. Adding an agreeing annotation changes whether the program compiles (findings/repro/F71_*paren*.mmm). Not repaired: it needs a decision about the grammar (unions in lambda parameters would have to be parenthesised)")
 add("F71", ["C16"], "C16.annotation-ambiguity|pipe|ArrayBegin", "same for a body that starts with `[`: `|x:float| [x, 1.0]` (findings/repro/F71_*array*.mmm)")
 
+# ---- WASM never frees boxed values (C12.wasm-release) ----------------------------------------------------------
+add("F72", ["C12"], "C12.wasm-release|host|usersum_release", "`type rec List = Nil | Cons(float, List)  fn dsp(){ let l = Cons(now, Cons(2.0, Nil))  head(l) }` on the WASM back end: the host's heap holds 2, 4, 6, … objects after 1, 2, 3, … samples (a scratch `eprintln!` of `state.heap.len()` in box_alloc_host; findings/repro/F72_*.mmm): wasmgen lowers ReleaseUserSum to `usersum_release(0, size, 0)` with placeholder arguments and usersum_release_host only logs. Not repaired: it needs the value's address and a type table on the WASM side")
+
 
 def main():
     extra = os.path.join(HERE, "tools", "findings_more.py")
